@@ -354,7 +354,7 @@ def run_node(pid, tier, seed):
     if pid in REPLPAIR_PROPS:
         # the real replication goroutine against a real follower (what the simulator only mirrors)
         rwd = vlib.workdir(pid + "_replpair")
-        rounds = 9 if tier == "quick" else 240
+        rounds = 12 if tier == "quick" else 240
         rc, rout = vlib.vh(["raft", "replpair", seed, rounds, rwd], timeout=3000)
         if rc != 0:
             out.append({"signature": "harness-died replpair", "detail": died(rout), "found": True,
